@@ -16,15 +16,41 @@ import (
 //go:embed known_funcs.txt
 var knownFuncsText string
 
+var knownSigs = map[string]string{}
+
 var knownFuncs = func() map[string]bool {
 	m := map[string]bool{}
 	for _, l := range strings.Split(knownFuncsText, "\n") {
 		if l = strings.TrimSpace(l); l != "" {
-			m[l] = true
+			name, sig, _ := strings.Cut(l, "\t")
+			m[name] = true
+			knownSigs[name] = sig
 		}
 	}
 	return m
 }()
+
+// SigString renders the signature of a function without its receiver, package-qualified: what a renamed
+// function keeps.
+func SigString(f *types.Func) string {
+	sig, ok := f.Type().(*types.Signature)
+	if !ok {
+		return ""
+	}
+	q := func(p *types.Package) string { return p.Path() }
+	tuple := func(t *types.Tuple) string {
+		var parts []string
+		for i := 0; i < t.Len(); i++ {
+			parts = append(parts, types.TypeString(t.At(i).Type(), q))
+		}
+		return strings.Join(parts, ", ")
+	}
+	v := ""
+	if sig.Variadic() {
+		v = "..."
+	}
+	return "func(" + tuple(sig.Params()) + v + ") (" + tuple(sig.Results()) + ")"
+}
 
 // IsNewHelper reports whether f is a function the obligation tables have never seen.
 func IsNewHelper(f *FuncInfo) bool {
